@@ -56,7 +56,13 @@ fn gen_table(rng: &mut Rng) -> (RewriteTable, String) {
         t.replace.insert(key.clone(), val);
         order.push(key);
     }
-    let text = t.to_text(&order);
+    let mut text = t.to_text(&order);
+    // the last line need not end with a line break
+    if rng.chance(1, 4) {
+        while text.ends_with('\n') {
+            text.pop();
+        }
+    }
     (t, text)
 }
 
